@@ -55,6 +55,46 @@ Theorem c09_raw_header_expanded_sample : forall f hdr rate pool drops infmt inif
 Proof. exact raw_header_expanded_sample. Qed.
 Print Assumptions c09_raw_header_expanded_sample.
 
+(* ... and the raw header captured at ANY length n (sFlow agents send the first 64 / 128 / 256 bytes of a frame): for
+   EVERY well-formed frame and EVERY n the sample converts without error; every column other than the ethertype, the
+   VLAN id and the two layer lists carries the value the COMPLETE frame would give it (framed), or is as the sample
+   itself set it (the frame's columns: unset), or -- MPLS labels / TTLs, SRv6 segments of a stack / list the capture
+   cuts through -- is a prefix of the complete list; the layer stack is a prefix of the frame's layers.  Composition of
+   the sFlow producer with c10_any_capture_length (Proofs/FrameAnyCutP.v any_cut_on, from the sample's base message).
+   True of the implementation since fix 5d701ef: the dissector gets the header_length bytes, not the XDR padding. *)
+From GF Require Import Proofs.FrameAnyCutP Proofs.SFlowRT.
+Theorem c09_raw_header_any_capture : forall f n hdr rate pool drops inif outif flen stripped,
+  wf_frame f = true ->
+  exists m,
+    convert_sf empty_pcfg {| sKind := SFlowS; sHdr := hdr; sVals := [rate; pool; drops; inif; outif; 1];
+                             sRecs := [mk_header 1 flen stripped (firstn n (encode_frame f))] |} = Ok m /\
+    (forall k, k <> cEtype -> k <> cVlanId -> k <> cLayerStack -> k <> cLayerSize ->
+       let a := alookup (cols m) k in
+       a = alookup (cols (framed (sample_base rate inif outif flen) f)) k \/
+       a = alookup (cols (sample_base rate inif outif flen)) k \/
+       exists va vr, a = Some va /\ alookup (cols (framed (sample_base rate inif outif flen) f)) k = Some vr /\ vprefix va vr) /\
+    (exists k, mgetLI m cLayerStack = firstn k (map (fun x => layer_code (fst x)) (frame_layers f)) /\
+               length (mgetLI m cLayerSize) = length (mgetLI m cLayerStack)).
+Proof. exact raw_header_cut_flow_sample. Qed.
+Print Assumptions c09_raw_header_any_capture.
+
+Theorem c09_raw_header_any_capture_expanded : forall f n hdr rate pool drops infmt inif outfmt outif flen stripped,
+  wf_frame f = true ->
+  exists m,
+    convert_sf empty_pcfg {| sKind := SExpFlowS; sHdr := hdr; sVals := [rate; pool; drops; infmt; inif; outfmt; outif; 1];
+                             sRecs := [mk_header 1 flen stripped (firstn n (encode_frame f))] |} = Ok m /\
+    cols_ok (sample_base rate inif outif flen) m f /\ layers_ok m f.
+Proof. exact raw_header_cut_expanded_sample. Qed.
+Print Assumptions c09_raw_header_any_capture_expanded.
+
+(* the header the producer dissects is the header_length bytes of the record, whatever padding follows them on the wire *)
+Theorem c09_header_is_the_captured_bytes : forall proto flen stripped captured,
+  lenN captured < 4294967000 -> proto < 4294967296 -> flen < 4294967296 -> stripped < 4294967296 ->
+  let r := mk_header proto flen stripped captured in
+  dec_flow_record 1 (rLen r) (enc_rec_body r) = Ok r /\ rBlobs r = [captured].
+Proof. exact header_record_roundtrip. Qed.
+Print Assumptions c09_header_is_the_captured_bytes.
+
 (* THE SFLOW COLUMN OF THE DOCUMENTATION TABLE IS IMPLEMENTED.  Spec/DocTable.v doc_sflow (regenerated from
    docs/protocols.md on every build): the sFlow cell of every row as written.  For EVERY row
    (Spec/DocCheck2.v sflow_cell_ok; a cell in words the check does not know fails):
